@@ -92,14 +92,14 @@ def brute(edges, fr, am, energy):
     return H, H1
 
 
-def oracle(edges, fr, am, layout='C', fdtype=None):
+def oracle(edges, fr, am, layout='C', fdtype=None, ascale=1.0):
     """fdtype: the frequency array is handed over in that dtype (float32 / int64); `fr` then holds the float64 values its
     elements denote, so the per-sample histogram is the same question"""
     from emd import spectra
     fails = []
     e = np.array(edges, dtype=float)
     f = np.array(fr, dtype=float)
-    a = np.array(am, dtype=float)
+    a = np.array(am, dtype=float) * ascale      # a power of two: the histogram scales exactly (by its square in energy mode)
     if fdtype:
         f = f.astype(fdtype)
         assert np.array_equal(f.astype(float), np.array(fr, dtype=float))
@@ -108,6 +108,7 @@ def oracle(edges, fr, am, layout='C', fdtype=None):
     f0, a0 = f.copy(), a.copy()
     for mode in ('energy', 'amplitude'):
         H, H1 = brute(edges, fr, am, mode == 'energy')
+        H, H1 = H * (ascale ** 2 if mode == 'energy' else ascale), H1 * (ascale ** 2 if mode == 'energy' else ascale)
         try:
             d = spectra.hilberthuang(f, a, e, mode=mode)
             s = spectra.hilberthuang(f, a, e, mode=mode, return_sparse=True)
@@ -190,11 +191,14 @@ def run(ctx):
             ctx.sample(dict(freq_edges=edges, infr=fr, inam=am))
         layout = 'CF'[idx % 2]
         ctx.hist['layout-' + layout] += 1
-        fails = oracle(edges, fr, am, layout)
+        ascale = [1.0, 1.0, 2.0 ** -30, 1.0, 2.0 ** -60, 2.0 ** 20, 1.0][idx % 7]
+        if ascale != 1.0:
+            ctx.hist['amplitude-x%g' % ascale] += 1
+        fails = oracle(edges, fr, am, layout, ascale=ascale)
         for site, detail in fails[:1]:
             flat = [x for r in fr for x in r]
             ctx.problem('impl-violation', site, ('' if layout == 'C' else '(Fortran-ordered arrays) ') + detail,
-                        input=dict(freq_edges=edges, infr=fr, inam=am, layout=layout),
+                        input=dict(freq_edges=edges, infr=fr, inam=am, layout=layout, ascale=ascale),
                         tags=dict(below_range=any(x < edges[0] for x in flat)))
         if common.hashL(out) != mh[idx] and bad is None and not fails:
             bad = idx
@@ -215,7 +219,7 @@ def run(ctx):
 
 def replay(rec):
     i = rec['input']
-    fails = oracle(i['freq_edges'], i['infr'], i['inam'], i.get('layout', 'C'), None if i.get('fdtype') in (None, 'float64') else i['fdtype'])
+    fails = oracle(i['freq_edges'], i['infr'], i['inam'], i.get('layout', 'C'), None if i.get('fdtype') in (None, 'float64') else i['fdtype'], i.get('ascale', 1.0))
     for f in fails:
         print(f)
     return bool(fails)
